@@ -19,6 +19,7 @@ DOC = {
         'C07.R4': 'Command::spawn/output/status only in transform::execute and Transform::new',
         'C07.R5': 'each creation sink with a TMP path has an owning ADT field whose Drop impl removes that field',
         'C07.R6': 'run_dedupe: run_script only on the dry_run == false edge; log_script on the other',
+        'C07.R7': 'the transform program is handed the original file (Input::Named) only when `copy` is false; `copy` is cleared only under --no-copy; Transform::new sets copy = ($IN used)',
     },
     'not_decided': 'what the user\'s transform program does to $IN under --no-copy (documented exception); atime updates when O_NOATIME is refused; the kernel',
     'assumptions': ['the table of mutating primitives is complete for the crates fclones links', 'external crates do not mutate paths other than the ones passed to them'],
@@ -71,6 +72,7 @@ def run(ctx):
     r4(ctx, cg)
     r5(ctx, cg, fl)
     r6(ctx)
+    r7(ctx)
 
 
 def sink_sites(cg, keys):
@@ -330,3 +332,68 @@ def r6(ctx):
                 # read-only opens are not mutations
                 real = [s for s in sinks if s != 'OpenOptions::open']
                 ctx.check(not real, rule, 'bin::run_dedupe|callee-%s' % tk, c.where(), '%s mutates nothing' % tk, '%s (called regardless of --dry-run) can reach %s' % (tk, real))
+
+
+def r7(ctx):
+    """the private-copy default: $IN is the scanned file itself only under --no-copy"""
+    rule = 'C07.R7'
+    lib = ctx.lib
+    from ..analysis import direct_field, aggregates, field_writes, direct_def
+    sites = []
+    for p, b in lib.bodies.items():
+        if p.startswith('transform::') and '::test' not in p:
+            for bi, s in aggregates(b, 'transform::Input'):
+                sites.append((b, bi, s))
+    named = [(b, bi, s) for b, bi, s in sites if s['rv']['variant'] == 'Named']
+    copied = [(b, bi, s) for b, bi, s in sites if s['rv']['variant'] == 'Copied']
+    if not ctx.floor(rule, 'Input::Named / Input::Copied constructions', min(len(named), len(copied)), 1):
+        return
+    for b, bi, s in named + copied:
+        want_copy = s['rv']['variant'] == 'Copied'
+        ctx.fn(b)
+        # every field-guard that dominates this construction
+        guards = []
+        for d in b.dominators()[bi]:
+            t = b.blocks[d]['term']
+            if t['k'] == 'switch':
+                df = direct_field(b, t['op'])
+                if df and df[1].endswith('Transform'):
+                    tt, ft = switch_targets_bool(t)
+                    side = True if b.dominates(tt, bi) else (False if b.dominates(ft, bi) else None)
+                    if side is not None:
+                        guards.append((df[0], side != df[2]))
+        key = '%s|Input::%s' % (b.path, s['rv']['variant'])
+        if want_copy:
+            ok = ('copy', True) in guards
+            extra = [g for g in guards if g[0] != 'copy']
+            ctx.check(ok and not extra, rule, key, b.where(s['line']), 'the private copy is used whenever `copy` is set (guards: %s)' % guards,
+                      'the private copy of $IN is additionally conditioned on %s: in the other cases the transform program receives the scanned file itself although --no-copy was not given' % (extra or guards))
+        else:
+            ok = ('copy', False) in guards
+            ctx.check(ok, rule, key, b.where(s['line']), 'the original path is handed to the program only when `copy` is false (guards: %s)' % guards,
+                      'Input::Named(original) is reachable while `copy` is true (guards: %s): the transform program works on the scanned file itself without --no-copy' % guards)
+    # copy is cleared only under no_copy
+    n = 0
+    for u, tag in ((lib, ''),):
+        for b in u.bodies.values():
+            if '::test' in b.path or b.derived:
+                continue
+            for bi, s in field_writes(b, 'copy', 'Transform'):
+                n += 1
+                v = const_bool(s['rv'].get('op', {})) if s['rv']['k'] == 'use' else None
+                g = False
+                for d in b.dominators()[bi]:
+                    t = b.blocks[d]['term']
+                    if t['k'] == 'switch':
+                        df = direct_field(b, t['op'])
+                        if df and df[0] == 'no_copy':
+                            tt, ft = switch_targets_bool(t)
+                            g = b.dominates(tt if not df[2] else ft, bi)
+                ctx.check(v is False and g, rule, '%s|copy-cleared' % b.path, b.where(s['line']), '`copy = false` only under --no-copy', '`copy` is written (%s) outside the --no-copy branch' % v)
+    tn = lib.body('transform::Transform::new')
+    if tn is not None:
+        ag = aggregates(tn, 'transform::Transform')
+        if ag:
+            sl = backslice(tn, [agg_field(ag[0][1], 'copy')])
+            ok = any(tn.local_name(l) == 'has_in' for l in sl.locals)
+            ctx.check(ok, rule, tn.path + '|copy-default', tn.where(ag[0][1]['line']), 'copy defaults to "$IN is used"', 'the default of `copy` is not derived from the use of $IN')
